@@ -92,8 +92,10 @@ def compare(ctx, cfg, pg, state_max, rng):
         # the code's finite difference (dx = q99 / 1e10) carries float cancellation noise of about eps / dx
         if not abs(got - want) <= 2e-3 * abs(want) + 1e-4 / float(q99) + 1e-6:
             ctx.violation('pdf', cfg=cfg, t=t, expected=want, observed=got)
-        if got < 0:
-            ctx.violation('pdf-negative', cfg=cfg, t=t, observed=got)
+        # a density is non-negative; where the cdf is flat the code's difference quotient returns pure rounding noise of
+        # either sign (cdf rounding ~1e-15 divided by dx ~1e-9), so only a value below that noise floor is a violation
+        if got < -(1e-4 / float(q99) + 1e-6):
+            ctx.violation('pdf-negative', cfg=cfg, t=t, observed=got, noise_floor=1e-4 / float(q99) + 1e-6)
     # integral of 1 - cdf reproduces the mean (only when coalescence is certain: default horizon found)
     if cfg.get('end_time') is None:
         with C.LogCapture() as lc:
